@@ -288,7 +288,10 @@ def run_buffered(serializer, sizehint, chunks, spans=None):
             ev, stop = _event(lambda: consumer.next(n))
             while ev is not None:
                 if ev[0] == 1:
-                    ev[2] = _saved_remainder(consumer, ev[2])
+                    # the observable is what the CALLER reads from the exception (exc.remaining_data); the model
+                    # predicts the remainder the consumer re-injects, so a view of the receive buffer that was
+                    # overwritten before being copied shows up as a disagreement (defect fixed in /repo 330bfb7)
+                    _saved_remainder(consumer, ev[2])
                 evs.append(ev)
                 if spans is not None and ev[0] in (0, 1):
                     spans.append(fed - (len(ev[2]) if ev[0] == 1 else _saved_len(consumer)))
@@ -310,9 +313,8 @@ ALIASED = [0]
 
 
 def _saved_remainder(consumer, seen: bytes) -> bytes:
-    """The remainder the buffered consumer kept for the next parse.  exc.remaining_data is a live view of the receive
-    buffer which the consumer has already overwritten while re-injecting that same remainder at the buffer start, so
-    what the caller reads from the exception can differ (counted in ALIASED, reported as an observation)."""
+    """The remainder the buffered consumer kept for the next parse, compared with what the exception carries (a
+    difference is counted in ALIASED; since /repo 330bfb7 the exception carries a copy, so the count must be 0)."""
     if not seen:
         return b""
     kept = (consumer.get_value() or b"")[:len(seen)]
